@@ -690,11 +690,14 @@ Proof.
   pose proof (mono_run_cb fuel codes e c s) as X. destruct (run_cb fuel codes e c s) as [s1 r]. cbn [fst] in X.
   assert (X' : mono (cbs_touch s (c :: t)) s s1).
   { eapply mono_weaken; [|exact X]. intros q H. exists c. split; [left; reflexivity|exact H]. }
-  destruct r; try exact X'.
-  eapply mono_bind; [exact X'|]. intros K XX.
-  eapply mono_weaken; [|apply IH].
-  intros q (c' & Hin & Hc'). exists c'. split; [right; exact Hin|].
-  destruct c'; cbn [cb_touch] in *; try exact Hc'. eapply victim_of_mono; eassumption.
+  assert (REST : mono (cbs_touch s (c :: t)) s (fst (run_callbacks fuel codes e t s1))).
+  { eapply mono_bind; [exact X'|]. intros K XX.
+    eapply mono_weaken; [|apply IH].
+    intros q (c' & Hin & Hc'). exists c'. split; [right; exact Hin|].
+    destruct c'; cbn [cb_touch] in *; try exact Hc'. eapply victim_of_mono; eassumption. }
+  destruct r; try exact REST;
+    (destruct (is_stop_cb c && is_exit _); [|exact X'];
+     destruct (run_callbacks fuel codes e t s1) as [s2 r2]; cbn [fst] in REST; destruct r2; exact REST).
 Qed.
 
 (* one step: the pop, then only [mono] changes *)
